@@ -156,6 +156,7 @@ func (e *concEngine) Run(a *agg, spec *PropSpec, seed uint64) {
 		o = &deep
 	}
 	cc := genConcCase(&rng, o)
+	cc.Mode = &ConcMode{Lin: o.Lin, Rounds: o.Rounds, NoCleanup: o.NoCleanup, SweepCheck: o.SweepCheck}
 	srng := simrt.NewRng(seed, 21)
 	if a.horizon < 200 {
 		a.horizon = 1500
@@ -292,7 +293,7 @@ func ddminSlice[T any](xs []T, deadline time.Time, test func([]T) bool) []T {
 }
 
 func cloneConc(cc *ConcCase) *ConcCase {
-	c := &ConcCase{Cfg: cc.Cfg, Prefill: append([]Op(nil), cc.Prefill...)}
+	c := &ConcCase{Cfg: cc.Cfg, Prefill: append([]Op(nil), cc.Prefill...), Mode: cc.Mode}
 	for _, t := range cc.Tasks {
 		c.Tasks = append(c.Tasks, append([]Op(nil), t...))
 	}
